@@ -750,4 +750,13 @@ theorem arg2mapLoop_spec {vdefs : List VarDef} {args : List Argument} {vars : Va
     | panic msg => simp [hstep] at h
     | diverge => simp [hstep] at h
 
+/-- `varDefaultSpec` only looks at the default of the definition found -/
+theorem varDefaultSpec_congr {linked opDefs : List VarDef} (h : LinksAgree linked opDefs) :
+    varDefaultSpec linked = varDefaultSpec opDefs := by
+  funext n
+  have := h n
+  simp only [varDefaultSpec]
+  cases h1 : findVarDef linked n <;> cases h2 : findVarDef opDefs n <;> simp_all [Option.bind]
+  rw [← this]
+
 end Gql
